@@ -10,6 +10,30 @@ Definition sym_same_but_name (a b : symbol) : bool :=
 Fixpoint all2 {A} (f : A -> A -> bool) (a b : list A) : bool :=
   match a, b with [], [] => true | x :: a', y :: b' => f x y && all2 f a' b' | _, _ => false end.
 
+(* the renamed object must carry the renamed names: symbol i of the second object is called ren(name of symbol i of the first) *)
+Definition apply_ren (ren : list (list Z * list Z)) (n : list Z) : list Z :=
+  match find (fun p => list_eqb (fst p) n) ren with Some p => snd p | None => n end.
+
+Definition names_renamed (ren : list (list Z * list Z)) (o1 o2 : coff_obj) : bool :=
+  all2 (fun a b => list_eqb (y_name b) (apply_ren ren (y_name a))) (skipn 4 (o_symbols o1)) (skipn 4 (o_symbols o2)).
+
+(* 0 = the two objects differ only in symbol-name fields and the string table, and the names are the renamed ones *)
+Definition check_c15_coff_ren (c : list Z * list Z * list (list Z * list Z)) : Z :=
+  let '(f1, f2, ren) := c in
+  match coff_read f1, coff_read f2 with
+  | Some o1, Some o2 =>
+      match text_of f1 o1, text_of f2 o2 with
+      | Some t1, Some t2 =>
+          if negb (list_eqb t1 t2) then 2
+          else if negb (o_nsyms o1 =? o_nsyms o2) then 3
+          else if negb (all2 sym_same_but_name (o_symbols o1) (o_symbols o2)) then 4
+          else if negb (list_eqb (firstn 140 f1) (firstn 140 f2)) then 5
+          else if negb (names_renamed ren o1 o2) then 6 else 0
+      | _, _ => 1
+      end
+  | _, _ => 1
+  end.
+
 (* 0 = the two objects differ only in symbol-name fields and the string table *)
 Definition check_c15_coff (c : list Z * list Z) : Z :=
   match coff_read (fst c), coff_read (snd c) with
